@@ -549,11 +549,25 @@ class DocEngine:
         for a in self.artifacts:
             if a.get("path") == path:
                 a["dead"] = True
+        try:
+            exp = self._twin_expected(self.sut)  # model-based: the original keeps whatever laziness it has
+        except Exception:
+            exp = None
         res, exc = self._call(lambda: self.twin.doc.save(path), "save")
         self._outcome = f"twin_save_over_source:{'exc' if exc else 'ok'}"
         self.twin.store.touched |= {"meta.xml", ds.MANIFEST}
         self.stats.probe("clone_saved_over_source_of_original")
         self.flags.add("source_overwritten_by_clone")
+        if exc is None and exp is not None:
+            # the untouched original must still answer as before, part by part
+            try:
+                act = self._twin_actual(self.sut)
+            except Exception as e:
+                return [Violation("C10", "twin-unreadable", "twin_save_over_source", self._feats() + ["original_after_overwrite"], type(e).__name__, f"{type(e).__name__}: {e}")]
+            for n in exp:
+                if act.get(n) != exp[n]:
+                    return [Violation("C10", "twin-changed", "twin_save_over_source", self._feats() + ["original_after_overwrite", "part:" + n], None,
+                                      f"after its clone was saved over the file it was opened from, the original answers differently for {n}")]
         return []
 
     def _op_clone_part(self, op):
@@ -829,6 +843,20 @@ class DocEngine:
                     mem[n] = doc.container.get_part(n)
         return mem
 
+    def _memory_expected(self):
+        """what the in-memory document is, without reading anything through it: the live
+        tree of the parts the history parsed, the part-store model for the others"""
+        doc, st = self.sut.doc, self.sut.store
+        mem = {}
+        for n in st.names():
+            if n.endswith("/") or n == ds.RDF:
+                continue
+            if n in st.touched:
+                mem[n] = doc.get_part(n).serialize()
+            else:
+                mem[n] = st.current(n)
+        return mem
+
     @staticmethod
     def _mem_diff(a, b):
         for n in a:
@@ -863,10 +891,13 @@ class DocEngine:
         doc, st = self.sut.doc, self.sut.store
         vs = []
         try:
-            m0 = self._memory()
+            m0 = self._memory_expected()  # model-based for parts not parsed yet: nothing is loaded before the first save
         except Exception as e:
             self._outcome = "save_set:memory-unreadable"
             return []
+        unread = [n for n in st.names() if n not in st.over and n not in st.touched and n != "mimetype"]
+        if self.sut.src.get("path") and unread:
+            self.stats.probe("unread_parts_fetched_at_save")
         base_feats = self._feats()
         fault = op.get("fault")
         # reference: plain zip (this is also where parts not read yet are loaded)
@@ -963,6 +994,9 @@ class DocEngine:
         if exc is not None:
             return [Violation("C11", "save-raises", "save_set", base_feats + ["pk:zip", "pretty:False", "after_variants"], type(exc).__name__, str(exc))]
         again = xmlref.read_package(buf2.getvalue())
+        for n in sorted(again.parts):
+            if n not in ref.parts:
+                return [Violation("C11", "second-plain-save-differs", "save_set", base_feats + ["after_variants"], None, f"{n} is in the last plain save but was not in the first")]
         for n in sorted(ref.parts):
             if n not in again.parts:
                 return [Violation("C11", "second-plain-save-differs", "save_set", base_feats + ["after_variants"], None, f"{n} missing")]
@@ -1135,6 +1169,8 @@ class DocEngine:
                 return []
             root = etree.fromstring(cur)
             root.append(etree.Comment(f"set_part {n}"))
+            if self.prop == "C11":
+                root.set(xmlref.q("office:version"), "1.%d" % (2 + n % 2))  # (a change the element/attribute comparison sees)
             data = etree.tostring(root, xml_declaration=True, encoding="UTF-8")
         else:
             data = _blob(n)
